@@ -5,6 +5,7 @@ package main
 
 import (
 	"fmt"
+	"os"
 	"go/types"
 	"math/big"
 	"sort"
@@ -124,9 +125,14 @@ func (vc *VC) freshConst(prefix, sort string) string {
 }
 
 func (vc *VC) declConst(name, sort string) string {
+	if debugModel && !vc.declared["c:"+name] && (sort == "Bool" || sort == "Int") {
+		vc.wantValue(name)
+	}
 	vc.decl("c:"+name, fmt.Sprintf("(declare-const %s %s)", name, sort))
 	return name
 }
+
+var debugModel = os.Getenv("GOVC_DEBUG") != ""
 
 func (vc *VC) prelude() {
 	gi := vc.goInt()
